@@ -21,6 +21,10 @@ type c03Case struct {
 	// Prev != nil: the middleware is created with Prev, serves Req once, is then reconfigured to Cfg and serves
 	// Req again; the invariants are checked on the second response (state left behind by earlier calls)
 	Prev *CfgLit `json:"previous_config,omitempty"`
+	// Scribbled: before the request under test the middleware (same configuration) serves the request, a non-CORS
+	// GET and one actual request per configured origin pattern with a handler that overwrites in place every header
+	// slice it can reach
+	Scribbled bool `json:"after_requests_served_by_a_scribbling_handler,omitempty"`
 }
 
 var safelistedResponseHeaders = map[string]bool{"cache-control": true, "content-language": true, "content-length": true, "content-type": true, "expires": true, "last-modified": true, "pragma": true}
@@ -143,20 +147,41 @@ func c03Judge(k c03Case) *vlib.Failure {
 	if k.Prev != nil {
 		first = *k.Prev
 	}
-	m, err := cors.NewMiddleware(first.Config())
+	cfg0 := first.Config()
+	m, err := cors.NewMiddleware(cfg0)
 	if err != nil {
 		return vlib.Failf("configuration of the C03 alphabet rejected: %v", err)
 	}
+	scribbleConfig(&cfg0)
+	scribbleConfig(m.Config())
 	m.SetDebug(k.Debug)
 	if k.Prev != nil {
-		m.Wrap(http.HandlerFunc(func(http.ResponseWriter, *http.Request) {})).ServeHTTP(vlib.NewRec(), k.Req.HTTP())
+		// the first request is served with a handler that overwrites in place every header slice it can reach
+		m.Wrap(scribbler{}).ServeHTTP(vlib.NewRec(), k.Req.HTTP())
 		cfg := k.Cfg.Config()
 		if err := m.Reconfigure(&cfg); err != nil {
 			return vlib.Failf("configuration of the C03 alphabet rejected by Reconfigure: %v", err)
 		}
+		scribbleConfig(&cfg)
+	}
+	if k.Scribbled {
+		h := m.Wrap(scribbler{})
+		h.ServeHTTP(vlib.NewRec(), k.Req.HTTP())
+		h.ServeHTTP(vlib.NewRec(), vlib.Req{Method: "GET"}.HTTP())
+		for _, p := range k.Cfg.Origins {
+			o := strings.Replace(strings.Replace(p, "*.", "x.", 1), ":*", ":8", 1)
+			if o == "*" {
+				o = "https://any.example"
+			}
+			h.ServeHTTP(vlib.NewRec(), vlib.Req{Method: "GET", Hdr: map[string][]string{"Origin": {o}}}.HTTP())
+			h.ServeHTTP(vlib.NewRec(), vlib.Req{Method: "OPTIONS", Hdr: map[string][]string{"Origin": {o}, "Access-Control-Request-Method": {"GET"}}}.HTTP())
+		}
 	}
 	rec := vlib.NewRec()
 	m.Wrap(http.HandlerFunc(func(http.ResponseWriter, *http.Request) {})).ServeHTTP(rec, k.Req.HTTP())
+	if rec.WroteN > 1 {
+		return vlib.Failf("the middleware called WriteHeader %d times on one response", rec.WroteN)
+	}
 	return c03Invariants(k.Cfg, k.Req, rec.H, rec.Status)
 }
 
@@ -220,11 +245,14 @@ func checkC03(c *vlib.Ctx) (string, string) {
 		var b builtC03
 		b.lit = l
 		for d := 0; d < 2; d++ {
-			m, err := cors.NewMiddleware(l.Config())
+			cfg0 := l.Config()
+			m, err := cors.NewMiddleware(cfg0)
 			if err != nil {
 				ck.Report(c03Case{Cfg: l}, vlib.Failf("configuration of the C03 alphabet rejected: %v", err))
 				return levelMC, rule
 			}
+			scribbleConfig(&cfg0)
+			scribbleConfig(m.Config())
 			m.SetDebug(d == 1)
 			b.h[d] = m.Wrap(http.HandlerFunc(func(http.ResponseWriter, *http.Request) {}))
 		}
@@ -372,6 +400,16 @@ func checkC03(c *vlib.Ctx) (string, string) {
 	})
 	c.States.Add(hp.Count())
 	c.Set("history_sequences", hp.Count())
+	// (D) the same configuration after requests served by a handler that scribbles over the header slices
+	sp := vlib.Product{Sizes: []int{len(cfgs), 2, len(histReqs)}}
+	c.ParRange(sp.Count(), 64, "C03 scribbled", func(i int64) {
+		var tmp [3]int
+		ix := sp.At(i, tmp[:0])
+		c.Transitions.Add(int64(3 + 2*len(cfgs[ix[0]].Origins)))
+		ck.Try(c03Case{Cfg: cfgs[ix[0]], Debug: ix[1] == 1, Req: histReqs[ix[2]], Scribbled: true})
+	})
+	c.States.Add(sp.Count())
+	c.Set("scribbled_history_sequences", sp.Count())
 	c.Set("origin_family", map[string]any{"prefixes": prefixes, "sigma": sigma, "max_suffix_len": n, "values": total, "structured_values": len(structured), "suffix_family_prefixes": p2, "suffix_family_suffixes": s2, "suffix_family_values": total2})
 	c.Set("request_shape_product", prod.Sizes)
 	c.Set("configurations", len(cfgs))
